@@ -121,21 +121,28 @@ func (ph *peerHandler) reconnect() {
 	err := ph.host.Connect(ph.ctx, peer.AddrInfo{ID: ph.peer, Addrs: addrs})
 	if err != nil {
 		logger.Debugw("failed to reconnect", "peer", ph.peer, "error", err)
-		// Ok, we failed. Extend the timeout.
-		ph.mu.Lock()
-		if ph.reconnectTimer != nil {
-			// Only counts if the reconnectTimer still exists. If not, a
-			// connection _was_ somehow established.
-			ph.reconnectTimer.Reset(ph.nextBackoff())
-		}
-		// Otherwise, someone else has stopped us so we can assume that
-		// we're either connected or someone else will start us.
-		ph.mu.Unlock()
 	}
 
-	// Always call this. We could have connected since we processed the
-	// error.
-	ph.stopIfConnected()
+	// Decide what happens to the timer in one critical section: it has fired,
+	// and startIfDisconnected does nothing while it is non-nil.
+	ph.mu.Lock()
+	defer ph.mu.Unlock()
+
+	if ph.reconnectTimer == nil {
+		// Someone else has stopped us so we can assume that we're either
+		// connected, stopped for good, or someone else will start us.
+		return
+	}
+	if ph.host.Network().Connectedness(ph.peer) == network.Connected {
+		logger.Debugw("successfully reconnected", "peer", ph.peer)
+		ph.reconnectTimer.Stop()
+		ph.reconnectTimer = nil
+		ph.nextDelay = initialDelay
+		return
+	}
+	// Not connected: the dial failed, or it succeeded and the connection is
+	// already gone again. Extend the timeout.
+	ph.reconnectTimer.Reset(ph.nextBackoff())
 }
 
 func (ph *peerHandler) stopIfConnected() {
